@@ -56,6 +56,7 @@ def strategy_case(draw):
             "what": draw(st.sampled_from(["projection", "gradient"])),
             "zkind": draw(st.sampled_from(["random", "random", "random", "x", "tangent"])),
             "alpha": draw(st.sampled_from([1.0, -2.0, 0.5])), "beta": draw(st.sampled_from([1.0, 3.0, -0.25]))}
+    case["scale_x"] = draw(st.sampled_from([0, 0, 0, 0, -6, -3, 3, 6]))
     if M:
         case["M"] = M
     if case["what"] == "gradient":
@@ -131,6 +132,11 @@ def execute(case):
             spec["M"] = M
         return core.make_cores(spec)
     xc = mk(R, 0)
+    if case.get("scale_x", 0):
+        # the tangent space does not depend on the scale of x, the projector is linear in z: 10^k on one core of x
+        kx = case["seed"] % d
+        xc[kx] = xc[kx] * (10.0 ** case["scale_x"])
+        ck.label("scaled_x")
     x = T.TT(core.clone_cores(xc))
     Xm = to_modes(dense(xc), M, N)
     P, kappa, uranks = ref_projector(Xm)
